@@ -158,7 +158,7 @@ func loadC13Corpus() {
 
 func TestC13(t *testing.T) {
 	r, e := start(t, "C13",
-		"(0) exhaustively every file of one or two lexemes from a 46-entry vocabulary, with and without a final line break; (0b) every typed position of C06's table x every offered type and shape (totality only); (a) byte strings built from a dictionary of keywords, operators, quotes, comment markers, control and non-UTF-8 bytes; (b) token soup from the token vocabulary; (c) near misses: 1-2 token deletions, insertions, duplications, replacements, swaps and operand re-shapings (an operand parenthesised, indexed, sliced, turned into a call, a literal slice or a builtin result) applied to valid programs (the suite's sources, examples, std/*.tsh, generated programs); (d) import graphs over <= 4 files with every kind of edge (self-import, 2- and 3-cycles, missing files, directories, invalid imported files), main path missing or a directory. Each input is transpiled for both targets in a child worker process. Oracle: (script, nil) or (\"\", non-empty error); no panic, no worker death, no run beyond 60 s. Non-trivial = inputs that pass the lexer (they reach parser/transpiler code); distinct by input bytes.",
+		"(0) exhaustively every file of one or two lexemes from a 46-entry vocabulary, with and without a final line break; (0a) break / continue / return / func / import / panic in 19 kinds of context; (0b) every typed position of C06's table x every offered type and shape (totality only); (a) byte strings built from a dictionary of keywords, operators, quotes, comment markers, control and non-UTF-8 bytes; (b) token soup from the token vocabulary; (c) near misses: 1-2 token deletions, insertions, duplications, replacements, swaps and operand re-shapings (an operand parenthesised, indexed, sliced, turned into a call, a literal slice or a builtin result) applied to valid programs (the suite's sources, examples, std/*.tsh, generated programs); (d) import graphs over <= 4 files with every kind of edge (self-import, 2- and 3-cycles, missing files, directories, invalid imported files), main path missing or a directory. Each input is transpiled for both targets in a child worker process. Oracle: (script, nil) or (\"\", non-empty error); no panic, no worker death, no run beyond 60 s. Non-trivial = inputs that pass the lexer (they reach parser/transpiler code); distinct by input bytes.",
 		[]string{"a hang is decided by a 20 s watchdog, confirmed once in a fresh worker with 60 s (normal inputs take < 50 ms)", "super-linear slowness on inputs far larger than 2 KiB is not explored"})
 	defer r.Flush()
 	defer c13Pool.Close()
@@ -228,6 +228,33 @@ func TestC13(t *testing.T) {
 			}
 		}
 		r.SetExtra("n_tiny_inputs", 2*len(inputs))
+	}
+
+	// jump statements in every kind of context (totality only: C07 decides which are legal)
+	if e.Shard == 0 {
+		ctxs := []struct{ name, open, close string }{
+			{"top", "", ""}, {"if", "if cv {\n", "}\n"}, {"else", "if cw {\n} else {\n", "}\n"}, {"elif", "if cw {\n} else if cv {\n", "}\n"},
+			{"case", "switch iv {\ncase 1:\n", "}\n"}, {"default", "switch iv {\ndefault:\n", "}\n"}, {"tagless-case", "switch {\ncase cv:\n", "}\n"},
+			{"for", "for k := 0; k < 1; k++ {\n", "}\n"}, {"for-cond", "for cw {\n", "}\n"}, {"for-ever-if", "for {\nif cv {\n", "}\nbreak\n}\n"}, {"range", "for ri, rv := range lv {\n", "}\n"},
+			{"case-in-for", "for k := 0; k < 1; k++ {\nswitch iv {\ncase 1:\n", "}\n}\n"}, {"for-in-case", "switch iv {\ncase 1:\nfor k := 0; k < 1; k++ {\n", "}\n}\n"},
+			{"func", "func jf() {\n", "}\njf()\n"}, {"func-int", "func jf() int {\n", "return 2\n}\nprint(jf())\n"}, {"func-if", "func jf() {\nif cv {\n", "}\n}\njf()\n"},
+			{"func-case", "func jf() {\nswitch iv {\ncase 1:\n", "}\n}\njf()\n"}, {"func-for", "func jf() {\nfor k := 0; k < 1; k++ {\n", "}\n}\njf()\n"}, {"func-case-in-for", "func jf() int {\nfor k := 0; k < 1; k++ {\nswitch iv {\ncase 1:\n", "}\n}\nreturn 3\n}\nprint(jf())\n"},
+		}
+		for _, cx := range ctxs {
+			for _, j := range []string{"break", "continue", "return", "return 1", "return 1, 2", "func inner() {\n}", "import q \"x.tsh\"", "panic(\"p\")", "break\ncontinue", "continue\nprint(1)"} {
+				src := c07Prelude + cx.open + j + "\n" + cx.close
+				c := totalCase{Kind: "total", Property: "C13", FilesHex: map[string]string{"main.tsh": hexEnc(src)}, Main: "main.tsh", Note: "jump-placement"}
+				r.Eval()
+				r.Class("jump-placement")
+				if kind, msg, _ := checkTotal(c); kind != "" {
+					if kind == "harness" {
+						r.HarnessError("%s", msg)
+						return
+					}
+					r.Violate(rep.Sig{"kind": kind, "input": "jump-placement", "context": cx.name, "jump": strings.SplitN(j, "\n", 2)[0]}, fmt.Sprintf("%q in context %s: %s", j, cx.name, msg), c)
+				}
+			}
+		}
 	}
 
 	// every typed position of the grammar x every offered type and expression shape (the table of C06, top-level context):
